@@ -276,11 +276,12 @@ def check_chosen(ctx):
 
 def run(ctx):
     model = ctx.model
-    check_form(ctx)
-    I = check_cap(ctx)
+    fs = model.cls("SequOOL").file
+    ctx.attempt("R12-FORM", fs, "SequOOL.__init__", "schedule constants", check_form, ctx)
+    I = ctx.attempt("R12-CAP", fs, "SequOOL.pull", "depth cap", check_cap, ctx)
     if I is not None:
-        check_open(ctx, I)
-    check_chosen(ctx)
+        ctx.attempt("R12-OPEN", fs, "SequOOL.pull", "opening", check_open, ctx, I)
+    ctx.attempt("R12-CHOSEN", fs, "SequOOL", "searched points", check_chosen, ctx)
     from . import c04, c03
     from .. import callsites as CS
     from .. import effects as E
